@@ -33,13 +33,14 @@ SPECS = [
       "(add, doubling with either sign, P+(-P), untouched/identity buckets, shared batch inversion)",
       ["curves/src/msm.rs::batch_add", "curves/src/msm.rs::BucketAffine", "curves/src/msm.rs::Affine"],
       "every point of the toy curve y^2 = x^3 + 2 over F_13 (19 points) for 2 bases and max(n,2) buckets, all signs/indices", f"batch_add:group-law:n{n}",
-      tiers=("quick", "thorough") if n < 3 else ("thorough",), est=30, timeout={"quick": 300, "thorough": 1200})
+      tiers=("quick", "thorough") if n < 3 else ("thorough",), est=30, timeout={"quick": 300, "thorough": 1200},
+      flags=["--no-assertion-reach-checks"])
     for n in (1, 2, 3)
 ] + [
     H("c12::batch_add_p31_n2", "C12.K.batch_add.p31.n2",
       "batch_add with 2 live schedule points equals the textbook affine group law on a second toy curve",
       ["curves/src/msm.rs::batch_add"], "every point of y^2 = x^3 + 3 over F_31 (43 points)", "batch_add:group-law:p31", tiers=("thorough",),
-      est=60, timeout=900),
+      est=60, timeout=1200, flags=["--no-assertion-reach-checks"]),
 ]
 
 
